@@ -707,3 +707,856 @@ def _relax_length(ctx, tag, b, mid):
     for (bb, t) in sdf:
         ok2, cut, bad = M.guarded(b, [b.term_point(bb)], lambda atoms, lit: any(a[0] == 'T' and M.is_call(a[1], 'is_some') for a in atoms))
         ctx.check(ok2, 'R13.b', tag + '/undelete-only-when-recycled', b, b.loc(bb), 'a deleted flag is cleared only on the recycled path', 'set_deleted(false) outside the recycled path')
+
+
+# ================================================================================================
+# batch 2 — finalisation: thresholds, cache, cut-sets, local bounds, best nodes, filters, reset, flags
+# ================================================================================================
+def loop_item_of(t):
+    """the node index term if t is nodes[IDX].something"""
+    return t
+
+
+def _is_relaxed_lit(a):
+    return (a[0] == 'cmp' and M.is_field(a[1], 'comp_type', 'CompilationInput') and isinstance(a[2], tuple) and a[2][0] == 'aggr' and a[2][2] == 'Relaxed' and a[3] == frozenset('=')) or \
+        (a[0] == 'cmp' and M.is_field(a[2], 'comp_type', 'CompilationInput') and isinstance(a[1], tuple) and a[1][0] == 'aggr' and a[1][2] == 'Relaxed' and a[3] == frozenset('=')) or \
+        (a[0] == 'in' and M.is_field(a[1], 'comp_type', 'CompilationInput') and a[2] == frozenset(['Relaxed']))
+
+
+def _relaxed_or_exact(atoms, lit):
+    return any(_is_relaxed_lit(a) or (a[0] == 'T' and self_field(a[1], 'is_exact')) for a in atoms)
+
+
+def _best_known_ok(b, t):
+    """best_known = max(input.best_lb, value of the best exact node) (or input.best_lb when there is none)"""
+    for d in var_def_terms(b, t):
+        if is_input_lb(d):
+            continue
+        if isinstance(d, tuple) and d[0] == 'max' and len(d[1]) == 2 and any(is_input_lb(x) for x in d[1]) and \
+                any(node_field(x, 'value_top') is not None and M.contains(x, lambda y: self_field(y, 'best_exact_node')) for x in d[1]):
+            continue
+        return False
+    return True
+
+
+def r_thresholds(ctx):
+    for tag, adt in DIAGRAMS:
+        b = ctx.body(adt, '_compute_thresholds')
+        unit = ctx.unit(b)
+        # R09.1 everything in here happens only for relaxed or exact diagrams
+        pts = [pt for (pt, d, v, s) in writes(b) if node_field(d, 'theta') is not None]
+        muc = b.calls_to('_maybe_update_cache')
+        pts += [b.term_point(bb) for (bb, t) in muc]
+        pts += [b.term_point(bb) for (bb, t) in b.calls_to('call_mut')]
+        if ctx.floor('R09.1', tag + '/anchors', b, len(pts), 6, 'theta writes / cache updates in _compute_thresholds'):
+            ok, cut, bad = M.guarded(b, pts, _relaxed_or_exact)
+            ctx.check(ok, 'R09.1', tag + '/thresholds-only-relaxed-or-exact', b, b.loc(0), 'thresholds are computed and cached only for a relaxed compilation or an exact diagram',
+                      'thresholds can be computed/cached from a truncated (inexact) restricted diagram')
+        # who calls update_threshold / _maybe_update_cache
+        for body in dd_unit(ctx, tag):
+            for (bb, t) in body.calls_to('Cache::update_threshold'):
+                ctx.check(body.fn_name == '_maybe_update_cache' and body.kind != 'closure', 'R09.1', '%s/who-updates-cache/%s' % (tag, short(body)), body, body.loc(bb),
+                          'the cache is written by _maybe_update_cache only', 'Cache::update_threshold is called from %s' % body.name)
+            for (bb, t) in body.calls_to('_maybe_update_cache'):
+                ctx.check(body is b, 'R09.1', '%s/who-calls-maybe_update_cache/%s' % (tag, short(body)), body, body.loc(bb), '_maybe_update_cache is called from _compute_thresholds only',
+                          '_maybe_update_cache is called from %s' % body.name)
+        ctx.floor('R09.1', tag + '/cache-update-call', b, len(muc), 1, '_maybe_update_cache call')
+        # R09.5 closed list of theta writes in this unit
+        for body in unit:
+            for (pt, d, v, s) in writes(body):
+                idx = node_field(d, 'theta')
+                if idx is None:
+                    continue
+                inner = v[3][0][1] if isinstance(v, tuple) and v[0] == 'aggr' and v[2] == 'Some' else None
+                form = None
+                nf = lambda x, f: node_field(x, f) == idx
+                if inner is None:
+                    form = None
+                elif inner[0] in ('var', 'max') or is_input_lb(inner):
+                    if _best_known_ok(body, inner):
+                        form = 'best_known (exact terminal)'
+                        ok, cut, bad = M.guarded(body, [pt], lambda atoms, lit: any(a[0] == 'T' and (self_field(a[1], 'is_exact') or (M.is_call(a[1], 'is_exact') and node_field(a[1][2][0], 'flags') == idx)) for a in atoms))
+                        ctx.check(ok, 'R09.5', tag + '/theta-terminal-guard', body, body.loc(*pt), 'terminal nodes get theta = best_known only when exact (the diagram or the node)',
+                                  'an inexact terminal node receives theta = best_known')
+                elif inner[0] == 'sub' and _best_known_ok(body, inner[1]) and nf(inner[2], 'rub'):
+                    form = 'best_known - rub'
+                    tot = lambda t: isinstance(t, tuple) and t[0] == 'add' and len(t[1]) == 2 and any(nf(x, 'rub') for x in t[1]) and any(nf(x, 'value_top') for x in t[1])
+                    bk = lambda t: _best_known_ok(body, t) and (is_input_lb(t) or t[0] in ('var', 'max'))
+                    ok, cut, bad = M.guarded(body, [pt], lambda atoms, lit: any(M.cmp_matches(a, tot, bk, '<=') and _rel(a, tot) == frozenset('<=') for a in atoms))
+                    ctx.check(ok, 'R09.5', tag + '/theta-rub-guard(E8)', body, body.loc(*pt), 'theta = best_known - rub exactly when value_top + rub <= best_known (the equality case must not fall through to the dangling-node case)',
+                              'the rub-threshold case is not guarded by `value_top + rub <= best_known` (<= only)')
+                elif inner[0] == 'min' and len(inner[1]) == 2 and any(M.is_call(x, 'unwrap_or') and nf(x[2][0], 'theta') and (x[2][1][2] or '').endswith('MAX') for x in inner[1]) and \
+                        any(x[0] == 'sub' and _best_known_ok(body, x[1]) and nf(x[2], 'value_bot') for x in inner[1] if isinstance(x, tuple)):
+                    form = 'min(theta, best_known - value_bot)'
+                    tot = lambda t: isinstance(t, tuple) and t[0] == 'add' and len(t[1]) == 2 and any(nf(x, 'value_bot') for x in t[1]) and any(nf(x, 'value_top') for x in t[1])
+                    bk = lambda t: _best_known_ok(body, t) and (is_input_lb(t) or t[0] in ('var', 'max'))
+                    ok, cut, bad = M.guarded(body, [pt], lambda atoms, lit: any(M.cmp_matches(a, tot, bk, '<=') and '<' in _rel(a, tot) for a in atoms))
+                    ok2, _, _ = M.guarded(body, [pt], lambda atoms, lit: any(a[0] == 'T' and M.is_call(a[1], 'is_cutset') and node_field(a[1][2][0], 'flags') == idx for a in atoms))
+                    ctx.check(ok and ok2, 'R09.5', tag + '/theta-locb-guard(E9)', body, body.loc(*pt), 'theta = min(theta, best_known - value_bot) only for cut-set nodes with value_top + value_bot <=|< best_known',
+                              'the local-bound threshold case is not guarded by is_cutset and `value_top + value_bot <= best_known`')
+                elif nf(inner, 'value_top'):
+                    form = 'value_top (cut-set node that must be explored)'
+                    ok2, _, _ = M.guarded(body, [pt], lambda atoms, lit: any(a[0] == 'T' and M.is_call(a[1], 'is_cutset') and node_field(a[1][2][0], 'flags') == idx for a in atoms))
+                    ctx.check(ok2, 'R09.5', tag + '/theta-value-guard', body, body.loc(*pt), 'theta = value_top only for cut-set nodes', 'theta = value_top on a node that is not in the cut-set')
+                elif M.is_const(inner) and (inner[2] or '').endswith('MAX'):
+                    form = 'MAX (exact node without threshold)'
+                    ok2, _, _ = M.guarded(body, [pt], lambda atoms, lit: any(a[0] == 'T' and M.is_call(a[1], 'is_exact') and node_field(a[1][2][0], 'flags') == idx for a in atoms))
+                    ok3, _, _ = M.guarded(body, [pt], lambda atoms, lit: any(a[0] == 'T' and M.is_call(a[1], 'is_none') and nf(a[1][2][0], 'theta') for a in atoms))
+                    ctx.check(ok2 and ok3, 'R09.5', tag + '/theta-max-guard', body, body.loc(*pt), 'theta = MAX only for exact nodes that received no threshold from below',
+                              'theta = MAX is assigned to a node that is not (exact and still without threshold)')
+                elif inner[0] == 'min' and len(inner[1]) == 2 and body.kind == 'closure':
+                    # propagation to a parent: min(parent.theta or MAX, child.theta - edge.cost)
+                    par = [x for x in inner[1] if M.is_call(x, 'unwrap_or') and nf(x[2][0], 'theta') and (x[2][1][2] or '').endswith('MAX')]
+                    chd = [x for x in inner[1] if isinstance(x, tuple) and x[0] == 'sub' and M.is_field(x[2], 'cost', 'Edge') and M.is_param(x[2][1]) and x[2][1][1] == body.name]
+                    par_is_from = M.is_field(idx, '0') and M.is_field(idx[1], 'from', 'Edge') and M.is_param(idx[1][1]) and idx[1][1][1] == body.name
+                    if par and chd and par_is_from:
+                        ct = chd[0][1]
+                        child_ok = M.is_field(ct, '0') and isinstance(ct[1], tuple) and ct[1][0] == 'variant' and ct[1][2] == 'Some' and node_field(ct[1][1], 'theta') is not None
+                        if child_ok:
+                            form = 'propagation min(parent.theta, child.theta - edge.cost)'
+                            # the edge is an inbound arc of that child: checked through the foreach shape
+                            child_idx = node_field(ct[1][1], 'theta')
+                            ctx.check(_foreach_over(ctx, b, body, child_idx), 'R09.5', tag + '/theta-propagation-arcs', body, body.loc(*pt),
+                                      'thresholds are propagated along the inbound arcs of the node whose theta is used', 'theta propagation does not iterate the inbound arcs of the child whose theta it uses')
+                ctx.check(form is not None, 'R09.5', '%s/theta-write/%s' % (tag, form or 'unknown'), body, body.loc(*pt), 'theta write of an allowed form: %s' % form,
+                          'a write to Node.theta is not of an allowed form: theta := %s' % M.show(v)[:300])
+        # R09.2 _maybe_update_cache
+        mb = ctx.body(adt, '_maybe_update_cache')
+        ut = mb.calls_to('Cache::update_threshold')
+        if ctx.floor('R09.2', tag + '/update_threshold', mb, len(ut), 1, 'update_threshold call'):
+            (bb, t) = ut[0]
+            a = [mb.origin.operand(x, mb.term_point(bb)) for x in t['args']]
+            node = lambda x, f: M.is_field(x, f, '::Node') and M.is_param(x[1], index=0)
+            ok, cut, bad = M.guarded(mb, [mb.term_point(bb)], lambda atoms, lit: any(a_[0] == 'T' and M.is_call(a_[1], 'is_above_cutset') and node(a_[1][2][0], 'flags') for a_ in atoms))
+            ctx.check(ok, 'R09.2', tag + '/only-above-cutset', mb, mb.loc(bb), 'only nodes at or above the cut-set are written to the cache', 'a node below the cut-set can be written to the cache')
+            good = node(a[1], 'state') and node(a[2], 'depth') and M.is_field(a[3], '0') and a[3][1][0] == 'variant' and a[3][1][2] == 'Some' and node(a[3][1][1], 'theta') and \
+                isinstance(a[4], tuple) and a[4][0] == 'not' and M.is_call(a[4][1], 'is_cutset') and node(a[4][1][2][0], 'flags')
+            ctx.check(good, 'R09.2', tag + '/cache-entry', mb, mb.loc(bb), 'cache entry = (state, depth, theta, explored = !is_cutset) of one node',
+                      'update_threshold receives (%s)' % ', '.join(M.show(x) for x in a[1:]))
+            ctx.check(M.is_field(a[0], 'cache', 'CompilationInput'), 'R09.2', tag + '/cache-receiver', mb, mb.loc(bb), 'the cache written is input.cache', 'cache receiver is %s' % M.show(a[0]))
+
+
+def _foreach_over(ctx, parent, closure, child_idx):
+    """closure is applied (call_mut) in `parent` to edges[head] for cells of the inbound list of nodes[child_idx]"""
+    for (bb, t) in parent.calls_to('call_mut', 'call', 'call_once'):
+        a = [parent.origin.operand(x, parent.term_point(bb)) for x in t['args']]
+        if not (isinstance(a[0], tuple) and a[0][0] == 'closure' and a[0][1] == closure.name):
+            continue
+        heads = [x for x in M.walk(a[1]) if M.is_field(x, 'head') and isinstance(x[1], tuple) and x[1][0] == 'variant' and x[1][2] == 'Cons']
+        if not heads or not M.contains(a[1], lambda x: self_field(x, 'edges')):
+            return False
+        lst = heads[0][1][1]
+        if not (isinstance(lst, tuple) and lst[0] == 'index' and self_field(lst[1], 'edgelists')):
+            return False
+        lv = lst[2][1] if M.is_field(lst[2], '0') else lst[2]
+        defs = var_def_terms(parent, lv)
+        # the child index seen from the closure is expressed in the parent's terms (upvar resolution): compare structurally
+        starts_ok = any(node_field(d, 'inbound') is not None and (child_idx is None or node_field(d, 'inbound') == child_idx) for d in defs)
+        adv_ok = any(M.is_field(d, 'tail') for d in defs)
+        return starts_ok and adv_ok and len(defs) == 2
+    return False
+
+
+# ------------------------------------------------------------------------------------------------
+def r_filters(ctx):
+    for tag, adt in DIAGRAMS:
+        mv = ctx.body(adt, '_move_to_next_layer')
+        fc = mv.calls_to('_filter_with_cache')
+        fd = mv.calls_to('_filter_with_dominance')
+        sq = mv.calls_to('_squash_if_needed')
+        if ctx.floor('R09.3', tag + '/filter-call', mv, len(fc), 1, '_filter_with_cache call'):
+            ok, cut, bad = M.guarded(mv, [mv.term_point(fc[0][0])], lambda atoms, lit: any(a[0] == 'F' and M.is_call(a[1], 'is_empty') and self_field(a[1][2][0], 'layers') for a in atoms))
+            ctx.check(ok, 'R09.3', tag + '/cache-filter-below-root-only', mv, mv.loc(fc[0][0]), 'the cache filter is applied below the root only (layers non-empty)',
+                      'the cache filter can be applied to the root layer: the root, just marked explored at pop time, would prune itself')
+        if ctx.floor('R13.a', tag + '/squash-call', mv, len(sq), 1, '_squash_if_needed call') and fd and fc:
+            sqp = mv.term_point(sq[0][0])
+            # squash after the filters, on the vector that is returned / shared with _compile
+            r = mv.reach(mv.after(sqp))
+            ctx.check(mv.term_point(fd[0][0]) not in r and mv.term_point(fc[0][0]) not in r, 'R13.a', tag + '/squash-after-filters', mv, mv.loc(sq[0][0]), 'the layer is squashed after filtering',
+                      'a filter runs after the squash')
+            sarg = mv.origin.operand(sq[0][1]['args'][2], sqp)
+            if tag == 'Mdd':
+                good = M.is_param(sarg, index=2)
+                # every path returning true went through the squash
+                trues = [(bb, i) for (bb, i, s) in mv.assigns(lambda s: s['place']['l'] == 0 and not s['place']['p'] and s['rv']['k'] == 'use' and s['rv']['op'].get('const', {}).get('bool') is True)]
+                r0 = mv.reach([(0, 0)], avoid=[sqp])
+                good = good and bool(trues) and not any(p in r0 for p in trues)
+            else:
+                rt = _ret_term(mv)
+                good = rt == sarg
+                r0 = mv.reach([(0, 0)], avoid=[sqp])
+                good = good and not any(p in r0 for p in ret_points(mv))
+            ctx.check(good, 'R13.a', tag + '/squash-on-expanded-vector', mv, mv.loc(sq[0][0]), 'the vector handed to _compile for expansion has been squashed on every path',
+                      'the vector expanded by _compile is not the one that went through _squash_if_needed on every path')
+        # R09.4 cache filter closure
+        fb = ctx.body(adt, '_filter_with_cache')
+        cl = [c for c in ctx.unit(fb)[1:] if c.calls_to('Cache::get_threshold')]
+        if ctx.floor('R09.4', tag + '/closure', fb, len(cl), 1, 'retain closure of _filter_with_cache'):
+            c = cl[0]
+            gt = c.calls_to('Cache::get_threshold')[0]
+            ga = [c.origin.operand(x, c.term_point(gt[0])) for x in gt[1]['args']]
+            idx = node_field(ga[1], 'state')
+            ctx.check(idx is not None and node_field(ga[2], 'depth') == idx, 'R09.4', tag + '/threshold-key', c, c.loc(gt[0]), 'the threshold is looked up under (state, depth) of the node being filtered',
+                      'get_threshold is asked for (%s, %s)' % (M.show(ga[1]), M.show(ga[2])))
+            gtt = c.origin.call(gt[1], c.term_point(gt[0]))
+            thv = lambda t: M.is_field(t, 'value', 'Threshold') and M.contains(t, lambda x: x == gtt)
+            falses = [(bb, i) for (bb, i, s) in c.assigns(lambda s: s['place']['l'] == 0 and not s['place']['p'] and s['rv']['k'] == 'use' and s['rv']['op'].get('const', {}).get('bool') is False)]
+            val = lambda t: node_field(t, 'value_top') == idx
+            ok, cut, bad = M.guarded(c, falses, lambda atoms, lit: any(M.cmp_matches(a, val, thv, '<=') for a in atoms))
+            ctx.check(bool(falses) and ok, 'R09.4', tag + '/prune-polarity(E5)', c, c.loc(*falses[0]) if falses else c.loc(0), 'a node is pruned by the cache only on an edge asserting value_top <=|< threshold.value',
+                      'the cache filter can prune a node without value_top <= theta being asserted (a strictly better path to the state is discarded)')
+            # pruned => flag + theta
+            for p in falses:
+                r0 = c.reach([(0, 0)], avoid=[c.term_point(bb) for (bb, t) in c.calls_to('set_pruned_by_cache')])
+                tw = [pt for (pt, d, v, s) in writes(c) if node_field(d, 'theta') == idx and isinstance(v, tuple) and v[0] == 'aggr' and v[2] == 'Some' and thv(v[3][0][1])]
+                r1 = c.reach([(0, 0)], avoid=tw)
+                ctx.check(p not in r0 and p not in r1 and bool(tw), 'R09.4', tag + '/pruned-gets-flag-and-theta', c, c.loc(*p), 'a pruned node is flagged pruned-by-cache and inherits theta := threshold.value (needed for propagation)',
+                          'a node pruned by the cache does not get the cache flag and theta := threshold.value on every path')
+        # R10.6 dominance filter
+        db = ctx.body(adt, '_filter_with_dominance')
+        so = db.calls_to('sort_unstable_by', 'sort_by')
+        good = False
+        if so:
+            rt = _closure_ret(ctx.F, db.origin.operand(so[0][1]['args'][1], db.term_point(so[0][0])))
+            if rt is not None and M.is_call(rt, 'reverse') and M.is_call(rt[2][0], 'DominanceChecker::cmp'):
+                a = rt[2][0][2]
+                ia, ib = node_field(a[1], 'state'), node_field(a[3], 'state')
+                good = ia is not None and ib is not None and node_field(a[2], 'value_top') == ia and node_field(a[4], 'value_top') == ib and \
+                    M.is_param(ia[1], index=1) and M.is_param(ib[1], index=2)
+        ctx.check(good, 'R10.6', tag + '/sort-dominators-first', db, db.loc(so[0][0]) if so else db.loc(0), 'the layer is sorted with dominance.cmp(a.state, a.value, b.state, b.value).reverse() (dominating states first)',
+                  'the layer is not sorted by DominanceChecker::cmp(..).reverse() on (a, b) before the dominance filter')
+        cl = [c for c in ctx.unit(db)[1:] if c.calls_to('DominanceChecker::is_dominated_or_insert')]
+        if ctx.floor('R10.6', tag + '/closure', db, len(cl), 1, 'retain closure of _filter_with_dominance'):
+            c = cl[0]
+            (bb, t) = c.calls_to('DominanceChecker::is_dominated_or_insert')[0]
+            a = [c.origin.operand(x, c.term_point(bb)) for x in t['args']]
+            idx = node_field(a[1], 'state')
+            ctx.check(idx is not None and node_field(a[2], 'depth') == idx and node_field(a[3], 'value_top') == idx, 'R10.6', tag + '/query-args', c, c.loc(bb),
+                      'the checker is queried with (state, depth, value_top) of the node being filtered', 'is_dominated_or_insert receives (%s)' % ', '.join(M.show(x) for x in a[1:]))
+            ok, cut, bad = M.guarded(c, [c.term_point(bb)], lambda atoms, lit: any(a_[0] == 'T' and M.is_call(a_[1], 'is_exact') and node_field(a_[1][2][0], 'flags') == idx for a_ in atoms))
+            ctx.check(ok, 'R10.6', tag + '/only-exact-nodes', c, c.loc(bb), 'only exact nodes are submitted to the dominance checker', 'an inexact (merged) node can be submitted to / pruned by the dominance checker')
+            res = c.origin.call(t, c.term_point(bb))
+            falses = [(b2, i) for (b2, i, s) in c.assigns(lambda s: s['place']['l'] == 0 and not s['place']['p'] and s['rv']['k'] == 'use' and s['rv']['op'].get('const', {}).get('bool') is False)]
+            ok, cut, bad = M.guarded(c, falses, lambda atoms, lit: any(a_[0] == 'T' and M.is_field(a_[1], 'dominated', 'DominanceCheckResult') and a_[1][1] == res for a_ in atoms))
+            ctx.check(bool(falses) and ok, 'R10.6', tag + '/drop-only-dominated', c, c.loc(*falses[0]) if falses else c.loc(bb), 'a node is dropped only when the checker answered dominated',
+                      'the dominance filter can drop a node the checker did not report dominated')
+            tw = [(pt, d, v) for (pt, d, v, s) in writes(c) if node_field(d, 'theta') is not None]
+            good = bool(tw) and all(node_field(d, 'theta') == idx and M.is_field(v, 'threshold', 'DominanceCheckResult') and v[1] == res for (pt, d, v) in tw)
+            if good:
+                r1 = c.reach([(0, 0)], avoid=[pt for (pt, d, v) in tw])
+                good = not any(p in r1 for p in falses)
+            ctx.check(good, 'R09.5', tag + '/theta-write/dominance threshold', c, c.loc(*tw[0][0]) if tw else c.loc(bb), 'a dominated node receives theta := the checker\'s threshold',
+                      'a dominated node does not receive theta := threshold returned by the checker')
+
+
+# ------------------------------------------------------------------------------------------------
+def r_cutset(ctx):
+    for tag, adt in DIAGRAMS:
+        # ---- R08.1 / R08.4 drain ----------------------------------------------------------------
+        b = ctx.body(adt, '_drain_cutset')
+        sp = aggr_assigns(b, 'common::SubProblem')
+        if ctx.floor('R08.1', tag + '/subproblem', b, len(sp), 1, 'SubProblem aggregate in _drain_cutset'):
+            (bb, i, s) = sp[0]
+            v = b.origin.rvalue(s['rv'], (bb, i))
+            f = dict(v[3])
+            idx = node_field(f['state'], 'state')
+            ctx.check(idx is not None and node_field(f['value'], 'value_top') == idx and node_field(f['depth'], 'depth') == idx, 'R08.1', tag + '/fields-of-one-node', b, b.loc(bb, i),
+                      'state, value (= value_top) and depth of a handed-out sub-problem come from one node', 'SubProblem fields come from different nodes / fields: %s' % M.show(v)[:300])
+            pth = f['path']
+            good = M.is_call(pth, '_best_path_partial_borrow', '_best_path') and idx is not None and id0(pth[2][0]) == idx and \
+                (not M.is_call(pth, '_best_path_partial_borrow') or (self_field(pth[2][1], 'path_to_root') and self_field(pth[2][2], 'nodes') and self_field(pth[2][3], 'edges')))
+            ctx.check(good, 'R08.1', tag + '/path-of-same-node', b, b.loc(bb, i), 'the path handed out is the best path of that same node (prefixed by path_to_root)', 'SubProblem.path is %s' % M.show(pth)[:200])
+            ctx.check(idx is not None and M.contains(idx, lambda x: M.is_call(x, 'drain') and self_field(x[2][0], 'cutset')), 'R08.1', tag + '/ids-from-cutset', b, b.loc(bb, i),
+                      'the nodes handed out are the members of self.cutset', 'the node handed out is %s' % M.show(idx)[:200])
+            ub = f['ub']
+            items = ub[1] if isinstance(ub, tuple) and ub[0] == 'min' else (ub,)
+            def kind(x):
+                if isinstance(x, tuple) and x[0] == 'add' and len(x[1]) == 2 and any(node_field(y, 'value_top') == idx for y in x[1]):
+                    if any(node_field(y, 'rub') == idx for y in x[1]):
+                        return 'rub'
+                    if any(node_field(y, 'value_bot') == idx for y in x[1]):
+                        return 'locb'
+                if M.is_field(x, '0') and isinstance(x[1], tuple) and x[1][0] == 'variant' and M.is_call(x[1][1], 'best_value', '_best_value'):
+                    return 'best'
+                return None
+            kinds = [kind(x) for x in items]
+            ctx.check(all(k is not None for k in kinds) and len(kinds) >= 1, 'R08.4', tag + '/ub-term', b, b.loc(bb, i),
+                      'ub = min over a non-empty subset of {value_top + rub, value_top + value_bot, best_value} of that node (%s)' % ', '.join(str(k) for k in kinds),
+                      'the bound of a handed-out sub-problem is %s: not a min-combination of value_top+rub, value_top+value_bot, best_value of the node' % M.show(ub)[:300])
+            ok, cut, bad = M.guarded(b, [(bb, i)], lambda atoms, lit: any(a[0] == 'T' and M.is_call(a[1], 'is_marked') and node_field(a[1][2][0], 'flags') == idx for a in atoms))
+            ctx.check(ok, 'R08.1', tag + '/only-marked', b, b.loc(bb, i), 'only marked (backward reachable) nodes are handed out', 'an unmarked node can be handed out')
+            # the callback receives this aggregate
+            cm = [(b2, t2) for (b2, t2) in b.calls() if t2.get('callee') in ('std::ops::FnMut::call_mut', 'std::ops::FnOnce::call_once', 'std::ops::Fn::call')]
+            good = any(M.contains(b.origin.operand(t2['args'][1], b.term_point(b2)), lambda x: x == v) for (b2, t2) in cm)
+            ctx.check(good, 'R08.1', tag + '/callback-gets-it', b, b.loc(bb, i), 'the sub-problem built is what the callback receives', 'the callback does not receive the SubProblem built from the node')
+        # ---- R08.5 local bounds -------------------------------------------------------------------
+        lb = ctx.body(adt, '_compute_local_bounds')
+        for body in ctx.unit(lb):
+            for (pt, d, v, s) in writes(body):
+                idx = node_field(d, 'value_bot')
+                if idx is None:
+                    continue
+                if M.is_const(v, 0):
+                    ctx.ok('R08.5', tag + '/value_bot-init', body, body.loc(*pt), 'terminal nodes start with value_bot = 0')
+                    continue
+                good = isinstance(v, tuple) and v[0] == 'max' and len(v[1]) == 2 and any(node_field(x, 'value_bot') == idx for x in v[1])
+                if good:
+                    other = [x for x in v[1] if node_field(x, 'value_bot') != idx][0]
+                    good = isinstance(other, tuple) and other[0] == 'add' and any(M.is_field(y, 'cost', 'Edge') for y in other[1]) and any(node_field(y, 'value_bot') is not None for y in other[1])
+                    good = good and M.is_field(idx, '0') and M.is_field(idx[1], 'from', 'Edge')
+                    if good:
+                        child = [node_field(y, 'value_bot') for y in other[1] if node_field(y, 'value_bot') is not None][0]
+                        good = _foreach_over(ctx, lb, body, child) if body.kind == 'closure' else True
+                ctx.check(good, 'R08.5', tag + '/value_bot-max-update(E12)', body, body.loc(*pt), 'parent.value_bot := max(parent.value_bot, child.value_bot (+) edge.cost) over the inbound arcs of the child',
+                          'value_bot := %s is not the max-update over (child.value_bot + edge.cost) for arcs child <- parent' % M.show(v)[:260])
+            for (bb, t) in body.calls_to('set_marked'):
+                a = [body.origin.operand(x, body.term_point(bb)) for x in t['args']]
+                ctx.check(M.is_const(a[1], True), 'R08.5', '%s/marking/%s' % (tag, short(body)), body, body.loc(bb), 'marking only sets the flag', 'set_marked(%s)' % M.show(a[1]))
+        vw = [1 for body in ctx.unit(lb) for (pt, d, v, s) in writes(body) if M.is_field(d, 'value_bot', '::Node')]
+        for (pt, d, v, s) in writes(lb):
+            if M.is_field(d, 'value_bot', '::Node') and node_field(d, 'value_bot') is None:
+                ctx.check(M.is_const(v, 0) and M.contains(d, lambda x: self_field(x, 'nodes')), 'R08.5', tag + '/value_bot-init', lb, lb.loc(*pt), 'terminal nodes start with value_bot = 0', 'value_bot := %s' % M.show(v))
+        ctx.floor('R08.5', tag + '/value_bot-writes', lb, len(vw), 2, 'writes of value_bot (init + update)')
+        # traversal is bottom-up
+        rev = lb.calls_to('rev')
+        ctx.check(bool(rev) and M.contains(lb.origin.operand(rev[0][1]['args'][0], lb.term_point(rev[0][0])), lambda x: self_field(x, 'layers')), 'R08.5', tag + '/bottom-up', lb,
+                  lb.loc(rev[0][0]) if rev else lb.loc(0), 'local bounds are computed over the layers in reverse order', 'local bounds are not computed bottom-up (layers.rev())')
+        ok, cut, bad = M.guarded(lb, [p for p in [lb.term_point(bb) for (bb, t) in lb.calls_to('rev')]], lambda atoms, lit: any(_is_relaxed_lit(a) for a in atoms))
+        ctx.check(ok, 'R08.5', tag + '/only-relaxed', lb, lb.loc(0), 'local bounds are computed for relaxed compilations', 'local bounds computed outside relaxed compilations')
+        # ---- R08.2 frontier admission ------------------------------------------------------------
+        fb = ctx.body(adt, '_compute_frontier_cutset')
+        pushes = [(c, bb, t) for c in ctx.unit(fb) for (bb, t) in c.calls_to('push') if self_field(c.origin.operand(t['args'][0], c.term_point(bb)), 'cutset')]
+        if ctx.floor('R08.2', tag + '/frontier-push', fb, len(pushes), 1, 'push onto cutset in the frontier construction'):
+            (c, bb, t) = pushes[0]
+            v = c.origin.operand(t['args'][1], c.term_point(bb))
+            par = id0(v)
+            good_v = M.is_field(v, 'from', 'Edge') and M.is_param(v[1])
+            ok1, _, _ = M.guarded(c, [c.term_point(bb)], lambda atoms, lit: any(a[0] == 'T' and M.is_call(a[1], 'is_exact') and node_field(a[1][2][0], 'flags') == par for a in atoms))
+            ok2, _, _ = M.guarded(c, [c.term_point(bb)], lambda atoms, lit: any(a[0] == 'F' and M.is_call(a[1], 'is_cutset') and node_field(a[1][2][0], 'flags') == par for a in atoms))
+            ctx.check(good_v and ok1 and ok2, 'R08.2', tag + '/frontier-admission', c, c.loc(bb), 'a node enters the frontier cut-set only if it is the exact source of the arc and not yet a member',
+                      'the frontier cut-set admits %s without asserting is_exact(parent) && !is_cutset(parent)' % M.show(v))
+            sc = [c.term_point(b2) for (b2, t2) in c.calls_to('set_cutset') if node_field(c.origin.operand(t2['args'][0], c.term_point(b2)), 'flags') == par and M.is_const(c.origin.operand(t2['args'][1], c.term_point(b2)), True)]
+            r = c.reach(c.after(c.term_point(bb)), avoid=sc)
+            ctx.check(bool(sc) and not any(p in r for p in ret_points(c)), 'R08.2', tag + '/frontier-flag', c, c.loc(bb), 'an admitted node is flagged cut-set on every path (no duplicates)', 'an admitted node is not flagged F_CUTSET')
+            # the closure runs for inexact nodes only, over their inbound arcs, in a bottom-up traversal
+            cm = [(b2, t2) for (b2, t2) in fb.calls_to('call_mut') if isinstance(fb.origin.operand(t2['args'][0], fb.term_point(b2)), tuple) and fb.origin.operand(t2['args'][0], fb.term_point(b2))[1] == c.name]
+            good = bool(cm)
+            if good:
+                ok3, cut3, _ = M.guarded(fb, [fb.term_point(cm[0][0])], lambda atoms, lit: any(a[0] == 'F' and M.is_call(a[1], 'is_exact') and node_field(a[1][2][0], 'flags') is not None for a in atoms))
+                child = None
+                for (bbk, lab) in cut3:
+                    for a in M.lit_atoms(M.edge_literal(fb, bbk, lab)):
+                        if a[0] == 'F' and M.is_call(a[1], 'is_exact'):
+                            child = node_field(a[1][2][0], 'flags')
+                good = ok3 and _foreach_over(ctx, fb, c, child)
+            ctx.check(good, 'R08.2', tag + '/frontier-covers-inexact-nodes', fb, fb.loc(cm[0][0]) if cm else fb.loc(0), 'every inbound arc of every inexact node is examined',
+                      'the frontier construction does not examine the inbound arcs of each inexact node')
+            rev = fb.calls_to('rev')
+            ctx.check(bool(rev), 'R08.2', tag + '/frontier-bottom-up', fb, fb.loc(0), 'the frontier is built bottom-up', 'the frontier construction does not traverse layers in reverse')
+            # exact nodes met in the traversal are marked above-cutset
+            sa = [(b2, t2) for (b2, t2) in fb.calls_to('set_above_cutset')]
+            good = bool(sa)
+            if good:
+                a = [fb.origin.operand(x, fb.term_point(sa[0][0])) for x in sa[0][1]['args']]
+                ni = node_field(a[0], 'flags')
+                ok4, _, _ = M.guarded(fb, [fb.term_point(sa[0][0])], lambda atoms, lit: any(a_[0] == 'T' and M.is_call(a_[1], 'is_exact') and node_field(a_[1][2][0], 'flags') == ni for a_ in atoms))
+                good = ok4 and M.is_const(a[1], True)
+            ctx.check(good, 'R09.2', tag + '/above-cutset-iff-exact', fb, fb.loc(sa[0][0]) if sa else fb.loc(0), 'in the frontier construction a node is above the cut-set iff it is exact', 'set_above_cutset is not guarded by is_exact of the same node')
+        # ---- R08.3 progress: a diagram that keeps nodes in its pool across layers needs a root test -----------
+        uses_impact = any(body.calls_to('Problem::is_impacted_by') for body in dd_unit(ctx, tag))
+        if uses_impact:
+            root_test = False
+            for body in ctx.unit(fb) + ctx.unit(b) + ctx.unit(ctx.body(adt, '_squash_if_needed')) + ctx.unit(ctx.body(adt, '_relax')):
+                for bbk in body.live_blocks():
+                    if body.term(bbk)['k'] != 'switch':
+                        continue
+                    for (tb, lab) in body.succ(bbk):
+                        for a in M.lit_atoms(M.edge_literal(body, bbk, lab)):
+                            if a[0] == 'cmp':
+                                ts = (a[1], a[2])
+                                is_id = lambda x: (M.is_field(x, '0') and (M.is_field(x[1], 'from', 'Edge') or M.is_param(x[1]))) or node_field(x, 'depth') is not None
+                                is_root = lambda x: M.is_const(x, 0) or M.contains(x, lambda y: M.is_field(y, 'residual', 'CompilationInput')) or self_field(x, 'root')
+                                if (is_id(ts[0]) and is_root(ts[1])) or (is_id(ts[1]) and is_root(ts[0])):
+                                    root_test = True
+            ctx.check(root_test, 'R08.3', tag + '/root-test', fb, fb.loc(0),
+                      'a diagram whose pool keeps un-impacted nodes across layers tests for the compilation root on cut-set admission/emission',
+                      '%s keeps nodes in its pool across layers (is_impacted_by) but neither the squash guard nor the cut-set construction tests for the compilation root: '
+                      'a lingering child of the root can be merged (or receive an inexact arc) and the root itself enters the cut-set — no progress (D4)' % tag)
+        else:
+            mv = ctx.body(adt, '_move_to_next_layer')
+            dr = mv.calls_to('drain')
+            good = any(self_field(mv.origin.operand(t['args'][0], mv.term_point(bb)), TERMINAL[tag]) for (bb, t) in dr)
+            ctx.check(good, 'R08.3', tag + '/all-nodes-move', mv, mv.loc(dr[0][0]) if dr else mv.loc(0), 'every node of the next layer is moved into the expanded vector at each layer (drain, no conditional skip): all parents of a layer-k node lie in layer k-1',
+                      'the diagram no longer drains its whole next layer each iteration: the layer-count guard does not protect the root any more')
+        if tag == 'Mdd':
+            lc = ctx.body(adt, '_compute_last_exact_layer_cutset')
+            ps = [(bb, t) for (bb, t) in lc.calls_to('push') if self_field(lc.origin.operand(t['args'][0], lc.term_point(bb)), 'cutset')]
+            good = bool(ps)
+            if good:
+                v = lc.origin.operand(ps[0][1]['args'][1], lc.term_point(ps[0][0]))
+                good = M.contains(v, lambda x: M.is_call(x, 'skip')) and M.contains(v, lambda x: M.is_call(x, 'take')) and M.contains(v, lambda x: M.is_call(x, 'enumerate'))
+                sk = [x for x in M.walk(v) if M.is_call(x, 'skip')][0] if good else None
+                tk = [x for x in M.walk(v) if M.is_call(x, 'take')][0] if good else None
+                if good:
+                    lay = lambda x, f: M.is_field(x, f, 'Layer') and M.contains(x, lambda y: M.is_param(y, index=1))
+                    good = lay(sk[2][1], 'from') and isinstance(tk[2][1], tuple) and tk[2][1][0] == 'sub' and lay(tk[2][1][1], 'to') and lay(tk[2][1][2], 'from')
+            ctx.check(good, 'R08.2', tag + '/lel-cutset-is-layer-lel', lc, lc.loc(ps[0][0]) if ps else lc.loc(0), 'the LEL cut-set is exactly the node range [from, to) of layer `lel`',
+                      'the last-exact-layer cut-set is not nodes[from..to) of the recorded layer')
+            ad = lc.calls_to('NodeFlags::add')
+            good = False
+            for (bb, t) in ad:
+                a = lc.origin.operand(t['args'][1], lc.term_point(bb))
+                if isinstance(a, tuple) and a[0] == 'bin' and a[1] == 'BitOr' and {(a[2][2] or '').split('::')[-1], (a[3][2] or '').split('::')[-1]} == {'F_CUTSET', 'F_ABOVE_CUTSET'}:
+                    good = True
+            ctx.check(good, 'R08.2', tag + '/lel-cutset-flags', lc, lc.loc(0), 'LEL cut-set nodes are flagged F_CUTSET | F_ABOVE_CUTSET', 'LEL cut-set nodes are not flagged F_CUTSET | F_ABOVE_CUTSET')
+            fcs = ctx.body(adt, '_finalize_cutset')
+            ok, cut, bad = M.guarded(fcs, call_points(fcs, '_compute_last_exact_layer_cutset', '_compute_frontier_cutset'), _relaxed_or_exact)
+            ctx.check(ok, 'R08.2', tag + '/cutset-only-relaxed-or-exact', fcs, fcs.loc(0), 'cut-sets are built for relaxed or exact diagrams only', 'a cut-set can be built from an inexact restricted diagram')
+        else:
+            ok, cut, bad = M.guarded(fb, [fb.term_point(bb) for (bb, t) in fb.calls_to('rev')], _relaxed_or_exact)
+            ctx.check(ok, 'R08.2', tag + '/cutset-only-relaxed-or-exact', fb, fb.loc(0), 'cut-sets are built for relaxed or exact diagrams only', 'a cut-set can be built from an inexact restricted diagram')
+
+
+# ------------------------------------------------------------------------------------------------
+def r_best_nodes(ctx):
+    for tag, adt in DIAGRAMS:
+        for (fn, fld, what) in (('_best_value', 'best_node', 'value'), ('_best_solution', 'best_node', 'path'), ('_best_exact_value', 'best_exact_node', 'value'), ('_best_exact_solution', 'best_exact_node', 'path')):
+            b = ctx.body(adt, fn)
+            rt = _ret_term(b)
+            good = M.is_call(rt, 'map') and self_field(rt[2][0], fld)
+            if good:
+                crt = _closure_ret(ctx.F, rt[2][1])
+                if what == 'value':
+                    good = crt is not None and node_field(crt, 'value_top') is not None and M.is_param(node_field(crt, 'value_top')[1], index=1)
+                else:
+                    good = crt is not None and M.is_call(crt, '_best_path') and M.is_param(crt[2][1], index=1)
+            ctx.check(good, 'R02.5', '%s/%s' % (tag, fn), b, b.loc(0), '%s = %s.map(|id| %s of that node)' % (fn, fld, 'value_top' if what == 'value' else 'best path'),
+                      '%s returns %s' % (fn, M.show(rt)[:200]))
+        for (tr, fn) in (('best_value', '_best_value'), ('best_solution', '_best_solution'), ('best_exact_value', '_best_exact_value'), ('best_exact_solution', '_best_exact_solution'), ('drain_cutset', '_drain_cutset')):
+            b = ctx.body(adt, tr, trait='DecisionDiagram')
+            cs = b.calls_to(fn)
+            good = len(cs) == 1 and (tr == 'drain_cutset' or M.is_call(_ret_term(b), fn))
+            ctx.check(good, 'R02.5', '%s/trait-%s' % (tag, tr), b, b.loc(0), 'DecisionDiagram::%s delegates to %s' % (tr, fn), 'DecisionDiagram::%s does not delegate to %s' % (tr, fn))
+        bp = ctx.body(adt, '_best_path')
+        rt = _ret_term(bp)
+        good = M.is_call(rt, '_best_path_partial_borrow') and M.is_param(rt[2][0], index=1) and self_field(rt[2][1], 'path_to_root') and self_field(rt[2][2], 'nodes') and self_field(rt[2][3], 'edges')
+        ctx.check(good, 'R02.5', tag + '/_best_path', bp, bp.loc(0), '_best_path(id) = partial_borrow(id, path_to_root, nodes, edges)', '_best_path returns %s' % M.show(rt))
+        pb = ctx.body(adt, '_best_path_partial_borrow')
+        # sol starts as root_pa, edge_id starts at nodes[id].best, then pushes edge.decision and moves to nodes[edge.from].best
+        so = pb.calls_to('to_owned', 'to_vec', 'extend_from_slice')
+        start_ok = False
+        for l, ds in pb.defs().items():
+            if pb.local_name(l) == 'sol' or (pb.local_ty(l).startswith('std::vec::Vec<common::Decision')):
+                for dd_ in ds:
+                    t = pb.origin._def_term(l, dd_, 0)
+                    if M.is_param(t, index=1) or (isinstance(t, tuple) and M.contains(t, lambda x: M.is_param(x, index=1))):
+                        start_ok = True
+        ps = pb.calls_to('push')
+        good = start_ok and bool(ps)
+        if good:
+            a = [pb.origin.operand(x, pb.term_point(ps[0][0])) for x in ps[0][1]['args']]
+            ed = a[1]
+            good = M.is_field(ed, 'decision', 'Edge') and isinstance(ed[1], tuple) and ed[1][0] == 'index' and M.is_param(ed[1][1], index=3)
+            if good:
+                eid = ed[1][2]
+                lv = [x for x in M.walk(eid) if isinstance(x, tuple) and x and x[0] == 'var']
+                defs = var_def_terms(pb, lv[0]) if lv else []
+                def nbest(t, who):
+                    return M.is_field(t, 'best', '::Node') and isinstance(t[1], tuple) and t[1][0] == 'index' and M.is_param(t[1][1], index=2) and who(t[1][2])
+                from_id = lambda x: M.is_field(x, '0') and M.is_param(x[1], index=0)
+                from_edge = lambda x: M.is_field(x, '0') and M.is_field(x[1], 'from', 'Edge') and isinstance(x[1][1], tuple) and x[1][1][0] == 'index' and M.is_param(x[1][1][1], index=3)
+                good = len(defs) == 2 and any(nbest(d, from_id) for d in defs) and any(nbest(d, from_edge) for d in defs)
+        ctx.check(good, 'R02.5', tag + '/best-path-walk', pb, pb.loc(0), 'the path is root_pa followed by the decisions of the best-edge chain (edge := nodes[id].best; then nodes[edge.from].best)',
+                  'the solution reconstruction does not follow nodes[id].best -> edges[e].decision -> nodes[edge.from].best starting from root_pa')
+        # _find_best_node
+        fb = ctx.body(adt, '_find_best_node')
+        for (pt, d, v, s) in writes(fb):
+            for fld in ('best_node', 'best_exact_node'):
+                if self_field(d, fld):
+                    good = M.is_call(v, 'max_by_key') and M.contains(v[2][0], lambda x: M.is_call(x, 'values') and self_field(x[2][0], TERMINAL[tag]))
+                    if good:
+                        k = _closure_ret(ctx.F, v[2][1])
+                        good = k is not None and node_field(k, 'value_top') is not None and M.is_param(M.strip_casts(node_field(k, 'value_top'))[1] if M.is_field(node_field(k, 'value_top'), '0') else None, index=1)
+                    filt = [x for x in M.walk(v) if M.is_call(x, 'filter')]
+                    if fld == 'best_exact_node':
+                        fok = False
+                        if filt:
+                            fr = _closure_ret(ctx.F, filt[0][2][1])
+                            fok = fr is not None and M.is_call(fr, 'is_exact') and node_field(fr[2][0], 'flags') is not None
+                        good = good and fok
+                    else:
+                        good = good and not filt
+                    ctx.check(good, 'R02.6', '%s/find-%s' % (tag, fld), fb, fb.loc(*pt), '%s = argmax value_top over %s terminal nodes' % (fld, 'the exact' if fld == 'best_exact_node' else 'all'),
+                              '%s := %s' % (fld, M.show(v)[:260]))
+        # _finalize_exact
+        fe = ctx.body(adt, '_finalize_exact')
+        for (pt, d, v, s) in writes(fe):
+            if self_field(d, 'best_exact_node'):
+                ok, cut, bad = M.guarded(fe, [pt], lambda atoms, lit: any(a[0] == 'T' and self_field(a[1], 'has_exact_best_path') for a in atoms))
+                ctx.check(ok and self_field(v, 'best_node'), 'R02.6', tag + '/exact-best-path-promotion', fe, fe.loc(*pt), 'best_exact_node := best_node only when has_exact_best_path',
+                          'best_exact_node is overwritten with %s without has_exact_best_path being asserted' % M.show(v))
+            if self_field(d, 'has_exact_best_path'):
+                defs = var_def_terms(fe, v) if v[0] == 'var' else [v]
+                calls = [x for x in defs if M.is_call(x, '_has_exact_best_path')]
+                good = bool(calls) and all(M.is_const(x, False) or M.is_call(x, '_has_exact_best_path') for x in defs) and self_field(calls[0][2][1], 'best_node')
+                cp = call_points(fe, '_has_exact_best_path')
+                ok, cut, bad = M.guarded(fe, cp, lambda atoms, lit: any(_is_relaxed_lit(a) for a in atoms))
+                ctx.check(good and ok and bool(cp), 'R02.6', tag + '/has_exact_best_path-origin', fe, fe.loc(*pt), 'has_exact_best_path = Relaxed && _has_exact_best_path(best_node)',
+                          'has_exact_best_path := %s' % ', '.join(M.show(x) for x in defs))
+        # who else writes best_exact_node / best_node
+        for body in dd_unit(ctx, tag):
+            for (pt, d, v, s) in writes(body):
+                if self_field(d, 'best_exact_node') or self_field(d, 'best_node'):
+                    ctx.check(body.fn_name in ('_find_best_node', '_finalize_exact', '_clear', 'new'), 'R02.6', '%s/who-writes-best-nodes/%s' % (tag, short(body)), body, body.loc(*pt),
+                              'best nodes written by _find_best_node/_finalize_exact/_clear only', 'best_node/best_exact_node written in %s' % body.name)
+        # finalize order: find best node before finalize_exact before thresholds
+        fz = ctx.body(adt, '_finalize')
+        order = ['_finalize_layers', '_find_best_node', '_finalize_exact', '_compute_local_bounds', '_compute_thresholds']
+        pts = [call_points(fz, n) for n in order]
+        good = all(pts)
+        if good:
+            for i in range(len(order) - 1):
+                if pts[i][0] in fz.reach(fz.after(pts[i + 1][0])) or pts[i + 1][0] not in fz.reach(fz.after(pts[i][0])):
+                    good = False
+            cs = call_points(fz, '_finalize_cutset', '_compute_frontier_cutset')
+            good = good and bool(cs) and pts[3][0] in fz.reach(fz.after(cs[0])) and cs[0] in fz.reach(fz.after(pts[2][0]))
+        ctx.check(good, 'R02.6', tag + '/finalize-order', fz, fz.loc(0), '_finalize: layers, best node, exactness, cut-set, local bounds, thresholds — in that order', '_finalize does not run its steps in the required order')
+        # T7 _has_exact_best_path
+        hb = ctx.body(adt, '_has_exact_best_path')
+        _has_exact_best_path_table(ctx, tag, hb)
+
+
+def _path_ret(body, blocks, end):
+    """term of the last assignment to _0 on the path"""
+    last = None
+    for (kind, pt, s) in M.path_effects(body, blocks, (0, 0), end):
+        if kind == 'assign' and s['place']['l'] == 0:
+            last = (pt, s)
+        if kind == 'call' and s['dest']['l'] == 0 and not s['dest']['p']:
+            last = (pt, s)
+    if last is None:
+        return None
+    (pt, s) = last
+    if 'rv' in s:
+        return body.origin.rvalue(s['rv'], pt)
+    return body.origin.call(s, pt)
+
+
+def _has_exact_best_path_table(ctx, tag, hb):
+    paths = M.enumerate_paths(hb, (0, 0))
+    rows = []
+    ok = True
+    n = 0
+    for (edges, blocks, end) in paths:
+        atoms = M.path_atoms(hb, edges)
+        if not M.consistent(atoms):
+            continue
+        n += 1
+        rt = _path_ret(hb, blocks, end)
+        none = any(a[0] == 'in' and M.is_param(a[1], index=1) and a[2] == frozenset(['None']) for a in atoms)
+        ex = [a[0] for a in atoms if a[0] in 'TF' and M.is_call(a[1], 'is_exact')]
+        rx = [a[0] for a in atoms if a[0] in 'TF' and M.is_call(a[1], 'is_relaxed')]
+        if none:
+            want = 'true'
+            good = M.is_const(rt, True)
+        elif ex == ['T']:
+            want = 'true'
+            good = M.is_const(rt, True)
+        elif ex == ['F'] and rx == ['T']:
+            want = 'false'
+            good = M.is_const(rt, False)
+        elif ex == ['F'] and rx == ['F']:
+            want = 'recurse on best.from'
+            good = M.is_call(rt, '_has_exact_best_path')
+            if good:
+                arg = rt[2][1]
+                good = M.is_call(arg, 'map') and node_field(arg[2][0], 'best') is not None
+                crt = _closure_ret(ctx.F, arg[2][1]) if good else None
+                good = good and crt is not None and M.is_field(crt, 'from', 'Edge')
+        else:
+            want = '?'
+            good = False
+        rows.append((none, ex, rx, want, good))
+        ok = ok and good
+    ctx.stats['paths'] += n
+    ctx.check(ok and n == 4, 'R02.6', tag + '/has_exact_best_path-table', hb, hb.loc(0),
+              'decision table of _has_exact_best_path (4 cases): None -> true, exact -> true, relaxed -> false, otherwise recurse on the source of the best edge',
+              '_has_exact_best_path does not implement the table {None: true, exact: true, relaxed: false, else: recurse on best.from} (%d feasible paths, rows %s)' % (n, [(r[0], r[1], r[2], r[3], r[4]) for r in rows]))
+
+
+# ------------------------------------------------------------------------------------------------
+MUTATORS = ('push', 'insert', 'clear', 'extend_from_slice', 'extend', 'drain', 'truncate', 'remove', 'retain', 'entry', 'pop', 'append', 'resize', 'sort_unstable_by')
+
+
+def r_reset(ctx):
+    """T9: every field some non-constructor method writes is reset by _clear or overwritten by _initialize on every path"""
+    for tag, adt in DIAGRAMS:
+        name, info = ctx.F.adt(adt)
+        if info is None:
+            raise MissingAnchor('ADT ' + adt)
+        fields = [f[0] for f in info['variants'][0]['fields']]
+        clr = ctx.body(adt, '_clear')
+        ini = ctx.body(adt, '_initialize')
+        written = {}
+        for body in dd_unit(ctx, tag):
+            if body.fn_name in ('new', 'default', '_clear') and body.kind != 'closure':
+                continue
+            for (pt, d, v, s) in writes(body):
+                for x in M.walk(d):
+                    if self_field(x, x[2]) if (isinstance(x, tuple) and len(x) == 4 and x[0] == 'field') else False:
+                        written.setdefault(x[2], set()).add(body.fn_name)
+            for (bb, t) in body.calls():
+                last = (t.get('callee') or '').split('::')[-1]
+                if last in MUTATORS and t['args'] and t['arg_tys'][0].startswith('&mut'):
+                    a0 = body.origin.operand(t['args'][0], body.term_point(bb))
+                    for x in M.walk(a0):
+                        if isinstance(x, tuple) and len(x) == 4 and x[0] == 'field' and self_field(x, x[2]):
+                            written.setdefault(x[2], set()).add(body.fn_name)
+                # passing &mut self.f to a crate function counts as a write
+        n = 0
+        for f in fields:
+            if f not in written:
+                continue
+            n += 1
+            def resets(body):
+                pts = [pt for (pt, d, v, s) in writes(body) if self_field(d, f)]
+                pts += [body.term_point(bb) for (bb, t) in body.calls_to('clear') if self_field(body.origin.operand(t['args'][0], body.term_point(bb)), f)]
+                if not pts:
+                    return False
+                r = body.reach([(0, 0)], avoid=pts)
+                return not any(p in r for p in ret_points(body))
+            ctx.check(resets(clr) or resets(ini), 'R06.3', '%s/reset/%s' % (tag, f), clr, clr.loc(0), 'field %s (written by %s) is reset by _clear or overwritten by _initialize on every path' % (f, ', '.join(sorted(written[f]))[:80]),
+                      'field `%s` of %s is written during a compilation (%s) but neither reset by _clear nor overwritten by _initialize: state of an earlier compilation leaks into the next one' % (f, tag, ', '.join(sorted(written[f]))[:100]))
+        ctx.floor('R06.3', tag + '/fields', clr, n, 10, 'per-compilation fields of the diagram struct')
+        # values written by _clear are the constructor's
+        for (pt, d, v, s) in writes(clr):
+            if self_field(d, 'is_exact'):
+                ctx.check(M.is_const(v, True), 'R06.3', tag + '/clear-is_exact', clr, clr.loc(*pt), '_clear resets is_exact to true', '_clear sets is_exact := %s' % M.show(v))
+            if self_field(d, 'has_exact_best_path'):
+                ctx.check(M.is_const(v, False), 'R06.3', tag + '/clear-ebpo', clr, clr.loc(*pt), '_clear resets has_exact_best_path to false', '_clear sets has_exact_best_path := %s' % M.show(v))
+            for fld in ('best_node', 'best_exact_node', 'lel'):
+                if self_field(d, fld):
+                    ctx.check(isinstance(v, tuple) and v[0] == 'aggr' and v[2] == 'None', 'R06.3', '%s/clear-%s' % (tag, fld), clr, clr.loc(*pt), '_clear resets %s to None' % fld, '_clear sets %s := %s' % (fld, M.show(v)))
+        # _initialize: root node
+        np_ = [(bb, t) for (bb, t) in ini.calls_to('push') if self_field(ini.origin.operand(t['args'][0], ini.term_point(bb)), 'nodes')]
+        if ctx.floor('R06.3', tag + '/root', ini, len(np_), 1, 'root node creation'):
+            nd = ini.origin.operand(np_[0][1]['args'][1], ini.term_point(np_[0][0]))
+            f = dict(nd[3]) if isinstance(nd, tuple) and nd[0] == 'aggr' else {}
+            res = lambda x, fld: is_subproblem_field(x, fld) and M.is_field(x[1], 'residual', 'CompilationInput')
+            good = bool(f) and res(f['state'], 'state') and res(f['value_top'], 'value') and res(f['depth'], 'depth') and M.is_call(f['flags'], 'new_exact') and f['best'][2] == 'None'
+            ctx.check(good, 'R06.3', tag + '/root-node', ini, ini.loc(np_[0][0]), 'the root node is (residual.state, residual.value, residual.depth), exact, without best edge', 'root node is %s' % M.show(nd)[:260])
+            ex = [(bb, t) for (bb, t) in ini.calls_to('extend_from_slice', 'extend') if self_field(ini.origin.operand(t['args'][0], ini.term_point(bb)), 'path_to_root')]
+            good = bool(ex) and is_subproblem_field(ini.origin.operand(ex[0][1]['args'][1], ini.term_point(ex[0][0])), 'path')
+            ctx.check(good, 'R02.5', tag + '/path_to_root', ini, ini.loc(0), 'path_to_root := residual.path', 'path_to_root is not initialised from input.residual.path')
+            ins = [(bb, t) for (bb, t) in ini.calls_to('insert') if self_field(ini.origin.operand(t['args'][0], ini.term_point(bb)), TERMINAL[tag])]
+            good = bool(ins) and res(ini.origin.operand(ins[0][1]['args'][1], ini.term_point(ins[0][0])), 'state')
+            ctx.check(good, 'R06.3', tag + '/root-in-next-layer', ini, ini.loc(0), 'the root is the only member of the first layer to expand', 'the root node is not inserted into the next-layer container')
+
+
+def r_flags(ctx):
+    consts = {k.split('::')[-1]: v['int'] for k, v in ctx.F.consts.items() if 'NodeFlags::F_' in k}
+    vals = sorted(consts.values())
+    good = len(consts) >= 7 and all(v > 0 and (v & (v - 1)) == 0 for v in vals) and len(set(vals)) == len(vals)
+    anyb = ctx.body('node_flags::NodeFlags', 'test')
+    ctx.check(good, 'R06.4', 'flag-bits', anyb, anyb.loc(0), 'the %d NodeFlags constants are pairwise distinct single bits' % len(consts), 'NodeFlags constants are not pairwise distinct single bits: %s' % consts)
+    NF = 'node_flags::NodeFlags'
+    pairs = [('is_relaxed', 'F_RELAXED'), ('is_marked', 'F_MARKED'), ('is_cutset', 'F_CUTSET'), ('is_above_cutset', 'F_ABOVE_CUTSET'), ('is_deleted', 'F_DELETED'), ('is_pruned_by_cache', 'F_CACHE')]
+    for (fn, c) in pairs:
+        b = ctx.body(NF, fn)
+        rt = _ret_term(b)
+        good = M.is_call(rt, 'test') and M.is_param(rt[2][0], index=0) and M.is_const(rt[2][1]) and (rt[2][1][2] or '').endswith(c)
+        ctx.check(good, 'R06.4', 'getter/' + fn, b, b.loc(0), '%s = test(%s)' % (fn, c), '%s returns %s' % (fn, M.show(rt)))
+    sp = [('set_exact', 'F_EXACT'), ('set_relaxed', 'F_RELAXED'), ('set_marked', 'F_MARKED'), ('set_cutset', 'F_CUTSET'), ('set_above_cutset', 'F_ABOVE_CUTSET'), ('set_deleted', 'F_DELETED'), ('set_pruned_by_cache', 'F_CACHE')]
+    for (fn, c) in sp:
+        b = ctx.body(NF, fn)
+        cs = b.calls_to('set')
+        good = len(cs) == 1
+        if good:
+            a = [b.origin.operand(x, b.term_point(cs[0][0])) for x in cs[0][1]['args']]
+            good = M.is_param(a[0], index=0) and M.is_const(a[1]) and (a[1][2] or '').endswith(c) and M.is_param(a[2], index=1)
+        ctx.check(good, 'R06.4', 'setter/' + fn, b, b.loc(0), '%s(v) = set(%s, v)' % (fn, c), '%s does not call set(%s, value)' % (fn, c))
+    b = ctx.body(NF, 'test')
+    rt = _ret_term(b)
+    good = isinstance(rt, tuple) and rt[0] == 'cmp' and rt[1] == 'Eq' and any(isinstance(x, tuple) and x[0] == 'bin' and x[1] == 'BitAnd' for x in rt[2:4]) and any(M.is_param(x, index=1) for x in rt[2:4])
+    ctx.check(good, 'R06.4', 'test', b, b.loc(0), 'test(mask) = (bits & mask) == mask', 'test returns %s' % M.show(rt))
+    b = ctx.body(NF, 'set')
+    ad, rm = b.calls_to('NodeFlags::add'), b.calls_to('NodeFlags::remove')
+    good = len(ad) == 1 and len(rm) == 1
+    if good:
+        ok1, _, _ = M.guarded(b, [b.term_point(ad[0][0])], lambda atoms, lit: any(a[0] == 'T' and M.is_param(a[1], index=2) for a in atoms))
+        ok2, _, _ = M.guarded(b, [b.term_point(rm[0][0])], lambda atoms, lit: any(a[0] == 'F' and M.is_param(a[1], index=2) for a in atoms))
+        good = ok1 and ok2
+    ctx.check(good, 'R06.4', 'set', b, b.loc(0), 'set(flag, v) = if v {add(flag)} else {remove(flag)}', 'set does not add on true / remove on false')
+    for (fn, op) in (('add', 'BitOr'), ('remove', 'BitAnd')):
+        b = ctx.body(NF, fn)
+        ws = writes(b)
+        good = len(ws) == 1
+        if good:
+            v = ws[0][2]
+            good = isinstance(v, tuple) and v[0] == 'bin' and v[1] == op
+            if good and fn == 'remove':
+                good = any(isinstance(x, tuple) and x[0] == 'not' or (isinstance(x, tuple) and x[0] == 'un') for x in v[2:4])
+            if good and fn == 'add':
+                good = any(M.is_param(x, index=1) for x in v[2:4])
+        ctx.check(good, 'R06.4', fn, b, b.loc(0), '%s(f): bits %s' % (fn, '|= f' if fn == 'add' else '&= !f'), '%s writes %s' % (fn, M.show(ws[0][2]) if ws else '-'))
+    # is_exact = F_EXACT && !F_RELAXED  (T7 over the two bits)
+    b = ctx.body(NF, 'is_exact')
+    paths = M.enumerate_paths(b, (0, 0))
+    ok = True
+    n = 0
+    for (edges, blocks, end) in paths:
+        atoms = M.path_atoms(b, edges)
+        if not M.consistent(atoms):
+            continue
+        n += 1
+        rt = _path_ret(b, blocks, end)
+        facts = {}
+        for a in atoms:
+            if a[0] in 'TF' and M.is_call(a[1], 'test') and M.is_const(a[1][2][1]):
+                facts[(a[1][2][1][2] or '').split('::')[-1]] = (a[0] == 'T')
+        # evaluate the returned term under the path facts
+        def ev(t):
+            if M.is_const(t, True): return True
+            if M.is_const(t, False): return False
+            if isinstance(t, tuple) and t[0] == 'not':
+                x = ev(t[1]); return None if x is None else (not x)
+            if M.is_call(t, 'test') and M.is_const(t[2][1]):
+                return {'__': None}.get('x', None) if False else ('F_' + (t[2][1][2] or '').split('::F_')[-1], )
+            return None
+        r = ev(rt)
+        # exact iff EXACT and not RELAXED; the unevaluated bit (short circuit) appears symbolically in the return
+        if isinstance(r, tuple):
+            bit = r[0]
+            for val in (True, False):
+                f2 = dict(facts); f2[bit] = val
+                got = val
+                want = f2.get('F_EXACT', False) and not f2.get('F_RELAXED', True)
+                ok = ok and (got == want) if bit == 'F_EXACT' else ok
+        elif isinstance(rt, tuple) and rt[0] == 'not' and M.is_call(rt[1], 'test'):
+            bit = (rt[1][2][1][2] or '').split('::')[-1]
+            for val in (True, False):
+                f2 = dict(facts); f2[bit] = val
+                want = f2.get('F_EXACT', False) and not f2.get('F_RELAXED', True)
+                ok = ok and ((not val) == want)
+        elif r is not None:
+            want = facts.get('F_EXACT', False) and not facts.get('F_RELAXED', True)
+            if 'F_EXACT' in facts and (facts['F_EXACT'] is False):
+                want = False
+            ok = ok and (r == want)
+        else:
+            ok = False
+    ctx.check(ok and n >= 2, 'R06.4', 'is_exact-table', b, b.loc(0), 'is_exact() = test(F_EXACT) && !test(F_RELAXED) (%d paths)' % n, 'NodeFlags::is_exact is not F_EXACT && !F_RELAXED')
+    for (fn, c) in (('new_exact', 'F_EXACT'), ('new_relaxed', 'F_RELAXED')):
+        b = ctx.body(NF, fn)
+        rt = _ret_term(b)
+        good = isinstance(rt, tuple) and rt[0] == 'aggr' and M.is_const(rt[3][0][1]) and (rt[3][0][1][2] or '').endswith(c)
+        ctx.check(good, 'R06.4', fn, b, b.loc(0), '%s() = NodeFlags(%s)' % (fn, c), '%s returns %s' % (fn, M.show(rt)))
+
+
+# ================================================================================================
+# C15 — long arcs in Pooled: un-impacted nodes stay in the pool; depth bookkeeping; layer recording
+# ================================================================================================
+def r_pooled_layers(ctx):
+    adt = POOLED
+    tag = 'Pooled'
+    mv = ctx.body(adt, '_move_to_next_layer')
+    unit = ctx.unit(mv)
+    imp = [(c, bb, t) for c in unit for (bb, t) in c.calls_to('Problem::is_impacted_by')]
+    if not ctx.floor('R15.1', 'is_impacted_by', mv, len(imp), 1, 'is_impacted_by call in _move_to_next_layer'):
+        return
+    (c, bb, t) = imp[0]
+    a = [c.origin.operand(x, c.term_point(bb)) for x in t['args']]
+    idx = node_field(a[2], 'state')
+    ctx.check(M.is_param(a[1], index=2) and a[1][1] == mv.name and idx is not None and M.is_param(idx[1], index=1) and idx[1][1] == c.name, 'R15.1', 'impact-query', c, c.loc(bb),
+              'is_impacted_by(var of this layer, state of the candidate node)', 'is_impacted_by receives (%s, %s)' % (M.show(a[1]), M.show(a[2])))
+    imt = c.origin.call(t, c.term_point(bb))
+    impacted = lambda atoms, lit: any(a_[0] == 'T' and a_[1] == imt for a_ in atoms)
+    trues = [(b2, i) for (b2, i, s) in c.assigns(lambda s: s['place']['l'] == 0 and not s['place']['p'] and s['rv']['k'] == 'use' and s['rv']['op'].get('const', {}).get('bool') is True)]
+    ok, cut, bad = M.guarded(c, trues, impacted)
+    ctx.check(bool(trues) and ok, 'R15.1', 'expand-only-impacted', c, c.loc(*trues[0]) if trues else c.loc(bb), 'a pool node joins the layer only when the variable impacts its state',
+              'a node can join the layer although is_impacted_by answered false')
+    # the removal list is filled on the impacted branch only, and the pool loses exactly the members of that list
+    rp = [(b2, t2) for (b2, t2) in c.calls_to('push')]
+    good = bool(rp)
+    lst = None
+    if good:
+        pa = [c.origin.operand(x, c.term_point(rp[0][0])) for x in rp[0][1]['args']]
+        lst = pa[0]
+        ok, cut, bad = M.guarded(c, [c.term_point(rp[0][0])], impacted)
+        good = ok and node_field(pa[1], 'state') == idx
+    ctx.check(good, 'R15.1', 'unimpacted-stays-in-pool', c, c.loc(rp[0][0]) if rp else c.loc(bb), 'only impacted nodes are scheduled for removal from the pool (un-impacted nodes are carried to later layers)',
+              'a node the variable does not impact can be removed from the pool (it would be lost instead of skipping the layer)')
+    rm = [(c2, b2, t2) for c2 in unit for (b2, t2) in c2.calls_to('remove') if self_field(c2.origin.operand(t2['args'][0], c2.term_point(b2)), 'pool')]
+    good = len(rm) == 1 and rm[0][0].kind == 'closure'
+    if good:
+        site = None
+        for (b2, t2) in mv.calls_to('for_each'):
+            aa = [mv.origin.operand(x, mv.term_point(b2)) for x in t2['args']]
+            if isinstance(aa[1], tuple) and aa[1][0] == 'closure' and aa[1][1] == rm[0][0].name:
+                site = aa[0]
+        good = site is not None and lst is not None and M.contains(site, lambda x: x == lst) and M.contains(site, lambda x: M.is_call(x, 'drain'))
+    ctx.check(good, 'R15.1', 'pool-removal-list', mv, mv.loc(0), 'the pool loses exactly the states recorded on the impacted branch', 'pool.remove is not driven by the list filled on the impacted branch')
+    # the negative branch has no effect
+    falses = [(b2, i) for (b2, i, s) in c.assigns(lambda s: s['place']['l'] == 0 and not s['place']['p'] and s['rv']['k'] == 'use' and s['rv']['op'].get('const', {}).get('bool') is False)]
+    eff = [pt for (pt, d, v, s) in writes(c)] + [c.term_point(b2) for (b2, t2) in c.calls() if (t2.get('callee') or '').split('::')[-1] in MUTATORS]
+    nocut = _cut_edges(c, impacted)
+    r = c.reach([(0, 0)], cut_edges=nocut)
+    ctx.check(not any(p in r for p in eff), 'R15.1', 'unimpacted-untouched', c, c.loc(bb), 'nothing is written for a node the variable does not impact', 'an un-impacted node is modified')
+    # candidates = every pool node
+    rt = [(b2, t2) for (b2, t2) in mv.calls_to('retain')]
+    good = bool(rt)
+    if good:
+        v = mv.origin.operand(rt[0][1]['args'][0], mv.term_point(rt[0][0]))
+        good = M.contains(v, lambda x: M.is_call(x, 'values') and self_field(x[2][0], 'pool'))
+    ctx.check(good, 'R15.1', 'candidates-are-the-pool', mv, mv.loc(0), 'the candidates for a layer are all nodes of the pool', 'the layer candidates are not pool.values()')
+    # R15.2 depth bookkeeping
+    dw = [(pt, d, v) for (pt, d, v, s) in writes(c) if node_field(d, 'depth') is not None]
+    good = bool(dw) and all(node_field(d, 'depth') == idx and depth_counter(tag, v) for (pt, d, v) in dw)
+    if good:
+        for p in trues:
+            r = c.reach([(0, 0)], avoid=[pt for (pt, d, v) in dw])
+            good = good and p not in r
+    ctx.check(good, 'R15.2', 'depth-when-expanded', c, c.loc(*dw[0][0]) if dw else c.loc(bb), 'a node leaving the pool gets depth := layer counter (it may have been created many layers earlier)',
+              'a node expanded from the pool keeps the depth it was created with (stale after a long arc): sub-problems handed out carry a wrong depth')
+    fl = ctx.body(adt, '_finalize_layers')
+    fc = [x for x in ctx.unit(fl)[1:]]
+    good = False
+    for c2 in fc:
+        dw2 = [(pt, d, v) for (pt, d, v, s) in writes(c2) if node_field(d, 'depth') is not None]
+        ps = c2.calls_to('push')
+        if dw2 and ps:
+            nid = node_field(dw2[0][1], 'depth')
+            pv = c2.origin.operand(ps[0][1]['args'][1], c2.term_point(ps[0][0]))
+            r = c2.reach([(0, 0)], avoid=[dw2[0][0]])
+            r2 = c2.reach([(0, 0)], avoid=[c2.term_point(ps[0][0])])
+            good = depth_counter(tag, dw2[0][2]) and id0(pv) == nid and M.is_param(pv, index=1) and not any(p in r for p in ret_points(c2)) and not any(p in r2 for p in ret_points(c2))
+            lastv = c2.origin.operand(ps[0][1]['args'][0], c2.term_point(ps[0][0]))
+            fe = [(b2, t2) for (b2, t2) in fl.calls_to('for_each')]
+            good = good and bool(fe) and M.contains(fl.origin.operand(fe[0][1]['args'][0], fl.term_point(fe[0][0])), lambda x: M.is_call(x, 'values') and self_field(x[2][0], 'pool'))
+            ins = [(b2, t2) for (b2, t2) in fl.calls_to('insert') if self_field(fl.origin.operand(t2['args'][0], fl.term_point(b2)), 'layers')]
+            if good and ins:
+                ia = [fl.origin.operand(x, fl.term_point(ins[0][0])) for x in ins[0][1]['args']]
+                r3 = fl.reach([(0, 0)], avoid=[fl.term_point(ins[0][0])])
+                good = depth_counter(tag, ia[1]) and M.simplify_field(ia[2], 'nodes', None) == lastv and not any(p in r3 for p in ret_points(fl))
+            else:
+                good = False
+    ctx.check(good, 'R15.2', 'terminal-layer', fl, fl.loc(0), 'every node left in the pool gets depth := layer counter and is recorded, unconditionally, as the last layer',
+              '_finalize_layers does not record every remaining pool node (with depth := layer counter) as the last layer on every path')
+    # R15.3 a layer is recorded only when it has nodes (the squash guard counts layers)
+    ins = [(b2, t2) for (b2, t2) in mv.calls_to('insert') if self_field(mv.origin.operand(t2['args'][0], mv.term_point(b2)), 'layers')]
+    if ctx.floor('R15.3', 'layer-insert', mv, len(ins), 1, 'layers.insert in _move_to_next_layer'):
+        ia = [mv.origin.operand(x, mv.term_point(ins[0][0])) for x in ins[0][1]['args']]
+        vec = M.simplify_field(ia[2], 'nodes', None)
+        ok, cut, bad = M.guarded(mv, [mv.term_point(ins[0][0])], lambda atoms, lit: any(a_[0] == 'F' and M.is_call(a_[1], 'is_empty') and a_[1][2][0] == vec for a_ in atoms))
+        ctx.check(ok and depth_counter(tag, ia[1]), 'R15.3', 'no-empty-layer-recorded', mv, mv.loc(ins[0][0]),
+                  'a layer is recorded (under the layer counter) only when it has nodes: layers.len() counts real layers, which the first-layer squash guard relies on',
+                  'an empty layer can be recorded: the squash guard `layers.len() >= 2` then counts it and the children of the root can be merged (the root enters the cut-set)')
+    # the merged node created by the squash joins the recorded layer
+    cp = ctx.body(adt, '_compile')
+    mvc = cp.calls_to('_move_to_next_layer')
+    nv = cp.calls_to('Problem::next_variable')
+    if mvc and nv:
+        va = cp.origin.operand(mvc[0][1]['args'][2], cp.term_point(mvc[0][0]))
+        nvt = cp.origin.call(nv[0][1], cp.term_point(nv[0][0]))
+        ctx.check(va == M.simplify_field(M.simplify_variant(nvt, 'Some'), '0', None), 'R15.1', 'layer-variable', cp, cp.loc(mvc[0][0]), '_move_to_next_layer receives the variable chosen by next_variable for this layer',
+                  '_move_to_next_layer receives variable %s' % M.show(va)[:160])
